@@ -7,6 +7,7 @@ import (
 	"go/parser"
 	"go/token"
 	"go/types"
+	"strings"
 
 	"golang.org/x/tools/go/ast/astutil"
 )
@@ -278,6 +279,31 @@ func sroaLocals(fset *token.FileSet, info *types.Info, file *ast.File) ([]byte, 
 		}
 		return out
 	}
+	// the names this file imports packages by
+	importNames := map[string]string{}
+	for _, is := range file.Imports {
+		path := strings.Trim(is.Path.Value, "\"")
+		switch {
+		case is.Name == nil:
+			importNames[path] = ""
+		case is.Name.Name != "_" && is.Name.Name != ".":
+			importNames[path] = is.Name.Name
+		}
+	}
+	for path, nm := range importNames {
+		if nm == "" {
+			// not renamed: the package's own name
+			for _, o := range info.Uses {
+				if pn, ok := o.(*types.PkgName); ok && pn.Imported().Path() == path {
+					importNames[path] = pn.Name()
+					break
+				}
+			}
+			if importNames[path] == "" {
+				delete(importNames, path)
+			}
+		}
+	}
 	declOf := map[ast.Stmt]*cand{}
 	for _, c := range cands {
 		if !c.ok {
@@ -305,9 +331,14 @@ func sroaLocals(fset *token.FileSet, info *types.Info, file *ast.File) ([]byte, 
 					// it (its zero value, or the given value, is then seen as such and not as a load from a literal)
 					foreign := false
 					ts := types.TypeString(c.st.Field(i).Type(), func(p *types.Package) string {
-						if p != c.obj.Pkg() {
-							foreign = true
+						if p == c.obj.Pkg() {
+							return ""
 						}
+						// a type of another package: under the name this file imports that package by
+						if nm, ok := importNames[p.Path()]; ok {
+							return nm
+						}
+						foreign = true
 						return ""
 					})
 					if !foreign {
